@@ -404,7 +404,7 @@ def drive(job):
         """A new object of the key, made by the route, with the history replayed on it ('export' = the export of fmt itself)."""
         try:
             if route['r'] == 'import':
-                names = ['net', 'priv', 'comp'] if route['ep'] == 'key' else HINT_NAMES
+                names = {'key': ['net', 'priv', 'comp'], 'keyfw': ['net'], 'hdfw': ['net', 'comp', 'ms']}.get(route['ep'], HINT_NAMES)
                 obj = import_call(route['ep'], to_py(job['rin']), job['key0'], route['fmt'], frozenset(names))
             elif route['r'] == 'public':
                 obj = construct(job['key0']).public()
@@ -558,6 +558,62 @@ def routed_cases(rng, thorough):
                         k['wt'] = 'legacy'      # an uncompressed key has no segwit address
                     cases.append({'key': k, 'route': {'r': r, 'fmt': rfmt, 'ep': ep if r == 'import' else ''}})
                 n += 1
+    return cases
+
+
+TEXT_CLASSES = ['all-zero', 'digits', '0x-prefix', 'hex-digits', 'printable']
+
+
+def text_bytes(rng, klass, n):
+    """n bytes that read as text of the given class (input generator; the class of a field is decided by the
+    specification's TextClass and the coverage by `cover`)."""
+    hexd = '0123456789abcdefABCDEF'
+    if klass == 'all-zero':
+        return bytes(n)
+    if klass == 'digits':
+        return ''.join(rng.choice('0123456789') for _ in range(n)).encode()
+    if klass == '0x-prefix':
+        return ('0x' + ''.join(rng.choice(hexd) for _ in range(n - 2))).encode()
+    if klass == 'hex-digits':
+        body = [rng.choice(hexd) for _ in range(n)]
+        body[rng.randrange(1, n)] = rng.choice('abcdef')
+        body[0] = rng.choice('123456789ABCDEF')
+        return ''.join(body).encode()
+    body = [chr(rng.randrange(32, 127)) for _ in range(n)]
+    body[rng.randrange(1, n)] = rng.choice('~!g z_')
+    if body[0] == '0':
+        body[0] = 'Q'
+    return ''.join(body).encode()
+
+
+def text_cases(rng, thorough):
+    """HD keys whose fixed-width binary fields (parent fingerprint, chain code, child number, secret) read as text: a Latin
+    square over the five classes (all twenty field x class pairs on five keys; thorough: one field at a time as well),
+    each reached by the constructor, by importing its extended keys, its secret as bytes and its WIF."""
+    configs = [(n, w, m) for n in ('bitcoin', 'testnet', 'litecoin', 'bitcoinlib_test', 'dogecoin') for w in WTS
+               for m in (False, True) if defined(n, w)]
+    shapes = [{f: TEXT_CLASSES[(j + d) % 5] for d, f in enumerate(('fp', 'chain', 'index', 'secret'))} for j in range(5)]
+    if thorough:
+        shapes += [{f: c} for f in ('fp', 'chain', 'index', 'secret') for c in TEXT_CLASSES]
+    cases = []
+    for j, shape in enumerate(shapes):
+        net, wt, ms = configs[(j * 7 + rng.randrange(len(configs))) % len(configs)]
+        k = make_key(rng, net, wt, ms, True, True, True, 'rand', j, j)
+        sk = shape.get('secret')
+        if sk and sk != 'all-zero':
+            sec = text_bytes(rng, sk, 32)
+            pt = ref.ec_mul(int.from_bytes(sec, 'big'))
+            k.update({'secret': list(sec), 'x': list(pt[0].to_bytes(32, 'big')), 'y': list(pt[1].to_bytes(32, 'big'))})
+        for f, n in (('fp', 4), ('chain', 32), ('index', 4)):
+            if f in shape:
+                k[f] = list(text_bytes(rng, shape[f], n))
+        k['sclass'] = 'text:' + ','.join('%s=%s' % (f, c) for f, c in sorted(shape.items()))
+        k['textcase'] = True
+        for r, rfmt, ep in [('ctor', '', ''), ('import', 'xprv', 'hd'), ('import', 'xprv', 'hdfw'), ('import', 'xpub', 'hd'),
+                            ('import', 'bytes', 'hd' if j % 2 else 'key'), ('import', 'wif', ('key', 'keyfw', 'hd')[j % 3])]:
+            if ep == 'hdfw' and FAMILY_OF[net] in ('ltc', 'tltc') and wt != 'legacy':
+                continue          # from_wif takes no witness type: the shared Mtpv / Mtub version does not decide it
+            cases.append({'key': dict(k), 'route': {'r': r, 'fmt': rfmt, 'ep': ep}})
     return cases
 
 
@@ -736,6 +792,11 @@ def run(replay=None):
             keys.append(c['key'])
             hists.append([])
             routes.append(c['route'])
+        # binary fields that read as text
+        for c in text_cases(rng, thorough):
+            keys.append(c['key'])
+            hists.append([])
+            routes.append(c['route'])
     nbip = 0
     plan = []
     for i, k in enumerate(keys):
@@ -744,7 +805,9 @@ def run(replay=None):
         with_bip38 = k['priv'] and (bool(replay) or thorough or i % 23 == 0) and not (k['hd'] and k['ms']) and \
             (k['compressed'] or k['wt'] == 'legacy' or not k['hd'])
         fs = fmts_of(k, with_bip38 and not hists[i], conversions=bool(k.get('conv')) or bool(replay))
-        if routes[i]['r'] != 'ctor':      # the object is public-only; what it cannot express comes back as "undef"
+        if k.get('textcase'):             # every export of the object; what it cannot express comes back as "undef"
+            fs = [f for f in PRIV_FMTS if f != 'bip38' or (routes[i]['r'] == 'ctor' and i % 2 == 0)] + PUB_FMTS
+        elif routes[i]['r'] != 'ctor':    # the object is public-only
             fs = PUB_FMTS + CONV_FMTS + VIEW_FMTS
         if k.get('lite'):
             fs = [f for f in fs if f in ('wif', 'xprv', 'xpub', 'bip38')]
@@ -769,6 +832,7 @@ def run(replay=None):
         if rt['r'] != 'ctor':
             pairs.update((route_name(rt), c) for c in g['classes'])
         pairs.update(('xprv', c) for c in g['xcover'])
+        pairs.update(('field', c) for c in g['fcover'])
     items = [[p, list(ref.sha256d(bytes(p))[:4])] for p in want]
     chunk = max(25, (len(items) + 11) // 12)      # about a dozen TLC processes
     strs = common.tlc_eval('KeyFormatsEval', [{'k': 'str', 'items': items[i:i + chunk]}
@@ -811,7 +875,7 @@ def run(replay=None):
             rin = {'t': 'str', 'v': next(it), 'w': []}
         jobs.append({'key': spec_key(ka), 'key0': k, 'route': rt, 'rin': {f: rin[f] for f in ('t', 'v', 'w')}, 'hist': hi,
                      'items': its, 'seed': common.seed() * 1000003 + ki, 'thorough': thorough,
-                     'litehints': bool(k.get('litehints')) or rt['r'] != 'ctor'})
+                     'litehints': bool(k.get('litehints')) or rt['r'] != 'ctor' or bool(k.get('textcase'))})
 
     # ---------------- drive bitcoinlib
     if len(jobs) > 4:
